@@ -61,11 +61,27 @@ impl CaoLangAllocator {
         Self {
             runtime: vm,
             allocated: AtomicUsize::new(0),
-            next_gc: AtomicUsize::new((limit / 4).max(16)),
+            next_gc: AtomicUsize::new(Self::initial_threshold(limit)),
             limit: AtomicUsize::new(limit),
             #[cfg(feature = "verif-hooks")]
             verif: UnsafeCell::new(Default::default()),
         }
+    }
+
+    fn initial_threshold(limit: usize) -> usize {
+        (limit / 4).max(16)
+    }
+
+    fn threshold_after_gc(&self, live: usize) -> usize {
+        (live * 2).max(Self::initial_threshold(self.limit.load(Ordering::Relaxed)))
+    }
+
+    /// Forget the collection history (used when the runtime is cleared or gets a new limit)
+    pub fn reset_threshold(&self) {
+        self.next_gc.store(
+            Self::initial_threshold(self.limit.load(Ordering::Relaxed)),
+            Ordering::Relaxed,
+        );
     }
 
     /// # Safety
@@ -76,6 +92,18 @@ impl CaoLangAllocator {
         let allocated = s + self.allocated.fetch_add(s, Ordering::Relaxed);
         #[cfg(feature = "verif-hooks")]
         (*self.verif.get()).on_request(s, allocated);
+        let mut allocated = allocated;
+        if allocated > self.limit.load(Ordering::Relaxed) {
+            // reclaim the garbage before refusing the request
+            #[cfg(feature = "verif-hooks")]
+            {
+                (*self.verif.get()).collections += 1;
+            }
+            (*self.runtime).gc();
+            allocated = self.allocated.load(Ordering::Relaxed);
+            self.next_gc
+                .store(self.threshold_after_gc(allocated), Ordering::Relaxed);
+        }
         if allocated > self.limit.load(Ordering::Relaxed) {
             // the request is refused: it must not stay charged
             self.allocated.fetch_sub(s, Ordering::Relaxed);
@@ -97,10 +125,14 @@ impl CaoLangAllocator {
             (*self.verif.get()).collections += 1;
         }
         if allocated > self.next_gc.load(Ordering::Relaxed) {
-            self.next_gc.store(allocated * 2, Ordering::Relaxed);
             unsafe {
                 (*self.runtime).gc();
             }
+            // the next threshold depends on what survived, not on how much garbage there was
+            self.next_gc.store(
+                self.threshold_after_gc(self.allocated.load(Ordering::Relaxed)),
+                Ordering::Relaxed,
+            );
             debug!(
                 "GC done. Allocated before: {allocated}. Allocated now: {}",
                 self.allocated.load(Ordering::Relaxed)
